@@ -172,7 +172,8 @@ def state_inv(table):
     p = SV(z3.String("p!si"), TStr)
     r = table[p]
     body = Implies(And(table.contains(p), row(r, "ok", z3.BoolSort(), TBool), row(r, "has_hash", z3.BoolSort(), TBool)),
-                   row(r, "hvalue", z3.StringSort(), TStr) == HT(eff_name(r), p, row(r, "checksum", z3.StringSort(), TStr)))
+                   And(row(r, "hvalue", z3.StringSort(), TStr) == HT(eff_name(r), p, row(r, "checksum", z3.StringSort(), TStr)),
+                       row(r, "hvalue", z3.StringSort(), TStr).length() > 0))  # only truthy hashes are ever written (HashInfo.to_dict)
     return SV(z3.ForAll([p.t], body.t), TBool)
 
 
@@ -183,7 +184,12 @@ def table_of(hv, st):
 def _info_ok(c):
     """a caller-supplied stat is the current one, and stat results carry ino / mtime / size"""
     i = c.info.val
-    return Implies(c.info.is_some, And(i == now_info(c.fs, c.path), i.ino.is_some, i.mtime.is_some, i.size.is_some))
+    return Implies(c.info.is_some, And(i == now_info(c.fs, c.path), i.ino.is_some, i.mtime.is_some, i.size.is_some, _exists_if_local(c)))
+
+
+def _exists_if_local(c):
+    """(ghost of the local filesystem, see contracts/store_check.py) the file is there"""
+    return Implies(c.h.get("FileSystem.is_local", c.fs), c.h.G("lfiles").contains(c.path))
 
 
 def _get_pub_post(c):
@@ -191,10 +197,11 @@ def _get_pub_post(c):
     cur = CK_info(now_info(c.fs, c.path))
     return And(
         meta.is_some == hi.is_some,
+        Implies(hi.is_some, _exists_if_local(c)),
         Implies(hi.is_some, And(
             c.h.get("FileSystem.is_local", c.fs),                               # non-local filesystems never hit
             # a hit is the hash of the current bytes (or an empty HashInfo for a row that recorded none)
-            Or(And(hi.val.value.is_some, hi.val.name.is_some, hi.val.value.val == HT(hi.val.name.val, c.path, cur)),
+            Or(And(hi.val.value.is_some, hi.val.name.is_some, hi.val.value.val == HT(hi.val.name.val, c.path, cur), hi.val.value.val.length() > 0),
                And(hi.val.value.is_none, hi.val.name.is_none)),
         )),
     )
@@ -260,7 +267,8 @@ contract(
     f"{M}:State.save",
     params=dict(self=State, path=TStr, fs=FileSystem, hash_info=HashInfo, info=TOpt(FileInfo)),
     requires=lambda c: And(state_inv(table_of(c.h, c.self)), _info_ok(c), _vouched(c)),
-    raises={"FileNotFoundError": (lambda c: c.info.is_none, lambda c: table_of(c.h, c.self) == table_of(c.h0, c.self))},
+    raises={"FileNotFoundError": (lambda c: And(c.info.is_none, Implies(c.h.get("FileSystem.is_local", c.fs), Not(c.h.G("lfiles").contains(c.path)))),
+                                  lambda c: table_of(c.h, c.self) == table_of(c.h0, c.self))},
     modifies=lambda c: [("HashesCache.table", c.h.get("State.hashes", c.self))],
     ensures=lambda c: And(state_inv(table_of(c.h, c.self)),
                           Implies(Not(c.h.get("FileSystem.is_local", c.fs)), table_of(c.h, c.self) == table_of(c.h0, c.self))),
@@ -290,8 +298,9 @@ contract(
     f"{H}:_hash_file",
     params=dict(path=TStr, fs=FileSystem, name=TStr, callback=TOpt(Callback), info=TOpt(FileInfo)),
     returns=TTuple([TStr, Meta]),
-    raises={"NotImplementedError": (None, None), "FileNotFoundError": (None, None)},
-    ensures=lambda c: And(c.result[0] == cur_hash(c, c.name), Not(c.result[0].contains(".dir")), c.result[0].length() > 0),
+    raises={"NotImplementedError": (None, None),
+            "FileNotFoundError": (lambda c: Implies(c.h.get("FileSystem.is_local", c.fs), Not(c.h.G("lfiles").contains(c.path))), None)},
+    ensures=lambda c: And(c.result[0] == cur_hash(c, c.name), Not(c.result[0].contains(".dir")), c.result[0].length() > 0, _exists_if_local(c)),
     assumed=True,
     verify=False,
     doc="[to be verified against file_md5/fobj_md5 (C14) and the fs-provided checksums] the digest of the file's current bytes under `name`",
@@ -308,7 +317,7 @@ def _state_inv_of(hv, st):
 
 def _hash_file_post(c):
     meta, hi = c.result[0], c.result[1]
-    return And(hi.name == OStr.some(c.name), hi.value == OStr.some(cur_hash(c, c.name)),
+    return And(hi.name == OStr.some(c.name), hi.value == OStr.some(cur_hash(c, c.name)), cur_hash(c, c.name).length() > 0,
                Implies(c.state.is_some, _state_inv_of(c.h, c.state.val)))
 
 
@@ -317,7 +326,8 @@ contract(
     params=dict(path=TStr, fs=FileSystem, name=TStr, state=TOpt(StateBase), callback=TOpt(Callback), info=TOpt(FileInfo)),
     returns=TTuple([Meta, HashInfo]),
     requires=lambda c: And(Implies(c.state.is_some, _state_inv_of(c.h, c.state.val)), _info_ok(c)),
-    raises={"NotImplementedError": (None, None), "FileNotFoundError": (None, None)},
+    raises={"NotImplementedError": (None, lambda c: Implies(c.state.is_some, _state_inv_of(c.h, c.state.val))),
+            "FileNotFoundError": (None, lambda c: Implies(c.state.is_some, _state_inv_of(c.h, c.state.val)))},
     modifies=lambda c: [("HashesCache.table", None)],
     ensures=_hash_file_post,
     props=["C13", "C01", "C07"],
